@@ -1,4 +1,5 @@
 import GrmVerif.Lemmas.Newline5
+import GrmVerif.Lemmas.Newline6
 import GrmVerif.Lemmas.Diagnostics4
 /-!
 # C19 — byte offsets map to the right lines and columns; line extraction never fails
@@ -43,6 +44,28 @@ theorem line_num_spec (s : List Char) (byte : Nat) (h : byte ≤ byteLen s) :
 theorem line_num_out_of_range (s : List Char) (byte : Nat) (h : byteLen s < byte) :
     byteToLineNum (ofText s) byte = none := by
   simp [byteToLineNum, feedLen_ofText, h]
+
+/-- **Start of the line.** For every offset within the text — the end of the text included, boundary
+or not — `byte_to_line_byte` answers the start of the line the offset lies on: the greatest
+recorded line start that is `≤` the offset (0, or one past the last `'\n'` before it). -/
+theorem line_byte_spec (s : List Char) (byte : Nat) (h : byte ≤ byteLen s) :
+    byteToLineByte (ofText s) byte = some (lineStartOf (ofText s).newlines byte) :=
+  byteToLineByte_ofText s byte h
+
+/-- offsets beyond the text have no line start -/
+theorem line_byte_out_of_range (s : List Char) (byte : Nat) (h : byteLen s < byte) :
+    byteToLineByte (ofText s) byte = none := by
+  simp [byteToLineByte, line_num_out_of_range s byte h]
+
+/-- the same for every cache reachable by feeding chunks -/
+theorem line_byte_reachable (chunks : List (List Char)) (byte : Nat) :
+    byteToLineByte (chunks.foldl feed Cache.new) byte
+      = if byte ≤ byteLen chunks.flatten
+        then some (lineStartOf (ofText chunks.flatten).newlines byte) else none := by
+  rw [feed_chunking]
+  split
+  · next h => exact line_byte_spec _ _ h
+  · next h => exact line_byte_out_of_range _ _ (by omega)
 
 /-- **Line and column.** Every character-boundary offset of a text splits it uniquely as
 `a ++ cur ++ post` with `a` empty or ending in a newline and `cur` newline-free. The reported pair
